@@ -20,6 +20,7 @@
 #include "uciprotocol.hpp"
 #include "enginecontrol.hpp"
 #include "parallel.hpp"
+#include "computerPlayer.hpp"
 #include <condition_variable>
 #include <cstdint>
 #include <cstdio>
@@ -219,7 +220,9 @@ public:
                     long long t2 = vtimeAtLastCmd + spec.script[nextCmd].arg * 1000000LL;
                     if (w < 0 || t2 < w) w = t2;
                 }
-                if (w >= 0) { now = std::max(now, w); continue; }
+                // only sleepers are left: let time pass; but a script command whose (non-time) condition can no longer
+                // become true while everybody just sleeps (e.g. "after N nodes" when the search is already over) is released
+                if (w >= 0 && !(inputWaiter && ++idleJumps > 20)) { now = std::max(now, w); continue; }
                 if (inputWaiter) { forceInput = true; for (auto& t : th) if (t->st == T::INPUT) return t->id; }
                 std::string d = "no runnable thread at step " + std::to_string(step) + ":";
                 for (auto& t : th) d += " t" + std::to_string(t->id) + "=" + (t->st == T::BLOCKED ? "blocked" : t->st == T::EXITED ? "exited" : "?");
@@ -228,28 +231,36 @@ public:
             res.maxRunnable = std::max<long>(res.maxRunnable, (long)r.size());
             bool meIn = canContinue && me && std::find(r.begin(), r.end(), me->id) != r.end();
             int choice;
+            // fair baseline: round-robin among the runnable threads at every scheduling point (polling loops never starve others)
+            auto roundRobin = [&]() { for (int id : r) if (me && id > me->id) return id; return r[0]; };
             switch (spec.strategy) {
             default:
-            case 0: choice = meIn ? me->id : r[0]; break;
+            case 0: choice = roundRobin(); break;
             case 1: choice = r[rnd() % r.size()]; break;
             case 2: {
                 for (long c : pctChange) if (c == step && me) me->prio = (int)(rnd() % 100); // lower the running thread's priority
+                // fairness for polling loops: a thread that has been chosen 64 times in a row drops below everybody else
+                if (me && meIn && consecutive >= 64) { int lo = me->prio; for (auto& t : th) lo = std::min(lo, t->prio); me->prio = lo - 1; }
                 int best = r[0];
                 for (int id : r) if (th[(size_t)id]->prio > th[(size_t)best]->prio) best = id;
                 choice = best; break;
             }
             case 3: {
-                choice = meIn ? me->id : r[0];
+                choice = roundRobin();
                 for (auto& p : spec.preempts) if (p.step == step && std::find(r.begin(), r.end(), p.thread) != r.end()) choice = p.thread;
                 break;
             }
             }
-            if (meIn && r.size() > 1 && res.decisionLog.size() < 20000) res.decisionLog.push_back({step, r});
-            if (meIn && choice != me->id) res.preemptions++;
+            if (r.size() > 1 && res.decisionLog.size() < 20000) res.decisionLog.push_back({step, r});
+            // a pre-emption = a choice that differs from the fair baseline's
+            if (r.size() > 1 && choice != roundRobin()) res.preemptions++;
+            if (choice == lastChoice) consecutive++; else { consecutive = 0; lastChoice = choice; }
             return choice;
         }
     }
     bool forceInput = false;
+    int idleJumps = 0;
+    int consecutive = 0, lastChoice = -1;
 
     // Give up the baton.  `me` has already set its own state.  Returns when `me` is scheduled again.
     void reschedule(std::unique_lock<std::mutex>& L, T* me, bool canContinue) {
@@ -363,7 +374,7 @@ public:
         forceInput = false;
         if (nextCmd >= spec.script.size()) { res.in.push_back({"<EOF>", now, step, false}); return false; }
         const ScriptCmd& c = spec.script[nextCmd++];
-        stepAtLastCmd = step; vtimeAtLastCmd = now;
+        stepAtLastCmd = step; vtimeAtLastCmd = now; idleJumps = 0;
         res.in.push_back({c.text, now, step, forced});
         if (c.text == "<EOF>") { nextCmd = spec.script.size(); return false; }
         if (c.text.rfind("go", 0) == 0) { nodesAtGo = 0; nodes0 = 0; lastNodes0 = 0; infoLines = 0; }
